@@ -174,6 +174,7 @@ def decimal_sign_rule(ctx):
                         'int(value) is written with scale %d also for '
                         'exponents %s: the fractional digits are dropped' %
                         (sc, bad)))
+        out.extend(_decimal_scale_rule(i, p, flds, E, X))
         okk = depends_on_sign(v.arg, E.P)
         out.append(('encode.decimal path %d unscaled value' % (i + 1), okk,
                     'operand %s %s' % (T.show(v.arg)[:100],
@@ -182,6 +183,206 @@ def decimal_sign_rule(ctx):
                                        'coefficient digits only: the sign '
                                        'of the value never reaches it')))
     return out
+
+
+def _strip_typed(t):
+    while isinstance(t, Sym) and t.op == 'typed' and t.args:
+        t = t.args[0]
+    return t
+
+
+def _pw_eval(t, X, x):
+    """Value of the integer term t at X = x, for terms built from integer
+    constants, X, + - * (by constants), max / min, abs and conditionals on
+    comparisons of such terms; None for anything else."""
+    t = _strip_typed(t)
+    if t is X:
+        return x
+    if isinstance(t, bool):
+        return None
+    if isinstance(t, int):
+        return t
+    if not isinstance(t, Sym):
+        return None
+    ev = lambda a: _pw_eval(a, X, x)  # noqa: E731
+    if t.op == 'lin':
+        r = t.args[0]
+        for a, k in t.args[1]:
+            v = ev(a)
+            if v is None:
+                return None
+            r += k * v
+        return r
+    if t.op == 'add':
+        vs = [ev(a) for a in t.args]
+        return None if None in vs else sum(vs)
+    if t.op == 'mul':
+        vs = [ev(a) for a in t.args]
+        if None in vs:
+            return None
+        r = 1
+        for v in vs:
+            r *= v
+        return r
+    if t.op == 'neg':
+        v = ev(t.args[0])
+        return None if v is None else -v
+    if t.op == 'abs':
+        v = ev(t.args[0])
+        return None if v is None else abs(v)
+    if t.op in ('max', 'min'):
+        args = t.args[0] if len(t.args) == 1 and isinstance(
+            t.args[0], tuple) else t.args
+        vs = [ev(a) for a in args]
+        if None in vs or not vs:
+            return None
+        return max(vs) if t.op == 'max' else min(vs)
+    if t.op == 'cond':
+        g = _pw_guard(t.args[0], X, x)
+        if g is None:
+            return None
+        return ev(t.args[1] if g else t.args[2])
+    return None
+
+
+def _pw_guard(g, X, x):
+    if isinstance(g, bool):
+        return g
+    if not isinstance(g, Sym):
+        return None
+    if g.op == 'not':
+        v = _pw_guard(g.args[0], X, x)
+        return None if v is None else not v
+    if g.op in ('and', 'or'):
+        vs = [_pw_guard(a, X, x) for a in g.args]
+        if None in vs:
+            return None
+        return all(vs) if g.op == 'and' else any(vs)
+    if g.op in ('lt', 'le', 'gt', 'ge', 'eq', 'ne'):
+        a, b = _pw_eval(g.args[0], X, x), _pw_eval(g.args[1], X, x)
+        if a is None or b is None:
+            return None
+        return {'lt': a < b, 'le': a <= b, 'gt': a > b, 'ge': a >= b,
+                'eq': a == b, 'ne': a != b}[g.op]
+    if g.op == 'truthy':
+        v = _pw_eval(g.args[0], X, x)
+        return None if v is None else bool(v)
+    if g.op == 'isinstance' and _strip_typed(g.args[0]) is X and \
+            'int' in g.args[1]:
+        return True
+    return None
+
+
+def _decimal_scale_rule(i, p, flds, E, X):
+    """The scale octet agrees with the power of ten by which the unscaled
+    field was shifted, for every exponent the path admits: the decoder
+    computes unscaled * 10**-scale.  The shift of the unscaled operand is
+    read off its form: scaleb(value, s) -> s; int(value) -> 0; an operand
+    built from as_tuple() digits only (the coefficient) -> -exponent.  Both
+    sides are piecewise-linear functions of the exponent; they are compared
+    exactly, at every integer around every constant that occurs in them
+    and at two points beyond on each side (where both are linear)."""
+    from . import isets
+    if X is None:
+        return []
+    P = E.P
+    sc, u = _strip_typed(flds[0].arg), flds[1].arg
+    tuples = {t for t in T.subterms(u) if t.op == 'method' and
+              t.args[0] is P and t.args[1] == 'as_tuple'}
+
+    def uses_value_itself(t):
+        # P used other than through as_tuple()
+        if t in tuples:
+            return False
+        if t is P:
+            return True
+        if isinstance(t, Sym):
+            for a in t.args:
+                for b in (a if isinstance(a, tuple) else (a,)):
+                    if isinstance(b, Sym) and uses_value_itself(b):
+                        return True
+        return False
+    # what a summarised comprehension / loop put into the lists the operand
+    # joins (the abstract element names the iterated term)
+    hidden = []
+    store = getattr(p, 'store', None) or {}
+    for t in T.subterms(u):
+        for a in t.args:
+            if isinstance(a, T.Ref) and a.id in store:
+                o = store[a.id]
+                hidden.append(getattr(o, 'source', None))
+                hidden.extend(getattr(o, 'items', ()) or ())
+    u_all = (u,) + tuple(h for h in hidden if isinstance(h, Sym))
+    tuples |= {t for t in T.subterms(u_all) if t.op == 'method' and
+               t.args[0] is P and t.args[1] == 'as_tuple'}
+    def shift_of(t):
+        # the power of ten by which the value was shifted to give t, as a
+        # (conditional) term; None when the form is not one of those read
+        t = _strip_typed(t)
+        if t is P:
+            return 0
+        if not isinstance(t, Sym):
+            return None
+        if t.op == 'cond':
+            a, b = shift_of(t.args[1]), shift_of(t.args[2])
+            if a is None or b is None:
+                return None
+            return a if a is b else Sym('cond', t.args[0], a, b)
+        if t.op == 'int' and len(t.args) == 1:
+            return shift_of(t.args[0])
+        if t.op == 'method' and t.args[0] is P and \
+                t.args[1] == 'scaleb' and len(t.args[2]) == 1:
+            return _strip_typed(t.args[2][0])
+        if t.op == 'method' and t.args[1] == 'scaleb' and \
+                len(t.args[2]) == 1:
+            inner = shift_of(t.args[0])
+            return None if inner is None else T.add(
+                inner, _strip_typed(t.args[2][0]))
+        if t.op == 'lin' and t.args[0] == 0 and len(t.args[1]) == 1 and \
+                t.args[1][0][1] in (1, -1):
+            return shift_of(t.args[1][0][0])
+        return None
+    shift = shift_of(u)
+    form = 'scaleb / int(value)'
+    if shift is None and tuples and \
+            not any(uses_value_itself(x) for x in u_all) and \
+            T.mentions(u_all, lambda t: t.op == 'attr' and
+                       t.args[1] == 'digits') and \
+            not T.mentions(u_all, lambda t: t is X):
+        # a function of the sign and the coefficient digits alone: the same
+        # for every exponent, so the scale has to carry the exponent
+        shift, form = T.neg(X), 'coefficient digits'
+    if shift is None:
+        return []
+    cons = 'encode.decimal path %d scale' % (i + 1)
+    if sc is shift or (isinstance(sc, int) and isinstance(shift, int) and
+                       sc == shift):
+        return [(cons, True, 'the scale written is the shift applied to '
+                 'the value (%s)' % form)]
+    consts = {abs(t) for t in T.subterms((sc, shift))
+              if isinstance(t, int) and not isinstance(t, bool)} | {0}
+    m = max(consts) + 2
+    adm = _admitted_exponents(p, X)
+    bad = []
+    for x in list(range(-m - 2, m + 3)):
+        if adm.inter(isets.ISet.range(x, x)).is_empty():
+            continue
+        a, b = _pw_eval(sc, X, x), _pw_eval(shift, X, x)
+        if a is None or b is None:
+            return [(cons, None, 'scale %s and shift %s (%s) are not '
+                     'piecewise-linear functions of the exponent' % (
+                         T.show(sc)[:60], T.show(shift)[:60], form))]
+        if a != b:
+            bad.append(x)
+    if bad:
+        return [(cons, False, 'the unscaled field is the value shifted by '
+                 '%s (%s) but the scale written is %s: they differ for '
+                 'exponents %s%s, so the decoder rebuilds a different '
+                 'number' % (T.show(shift)[:40], form, T.show(sc)[:60],
+                             bad[:4], ' ...' if len(bad) > 4 else ''))]
+    return [(cons, True, 'scale %s equals the shift %s (%s) for every '
+             'admitted exponent %s' % (T.show(sc)[:60], T.show(shift)[:40],
+                                       form, adm))]
 
 
 def timestamp_decode_rule(ctx):
